@@ -221,7 +221,7 @@ pub fn gen_case_sized(c: &mut Chooser, op: &str, prop: &str, small: bool) -> Cas
         },
         "concat" => Topo::Concat(if c.chance(1, 12) { 0 } else { 1 + c.choose(if small { 2 } else { 4 }) }),
         "combine" => Topo::Combine(1 + c.choose(if small { 2 } else { 3 })),
-        "flatten" if !small && !credit && c.chance(1, 8) => Topo::FlattenRepeat(2 + c.choose(3)),
+        "flatten" if !small && c.chance(1, 8) => Topo::FlattenRepeat(2 + c.choose(3)),
         "flatten" => Topo::Flatten(c.choose(if small { 3 } else { 5 })),
         "share" => {
             n_probes = 1 + c.choose(if small { 2 } else { 3 });
